@@ -86,6 +86,13 @@ def variable_lists():
     out.append(('mem1', [('mem', 'm0', 'float', 'uint32_t', 0x20001000)]))
     out.append(('mem+toc', [('toc', 't.float', None), ('mem', 'm1', 'uint8_t', 'uint8_t', 0xE000ED00), ('toc', 'u.b1', None)]))
     out.append(('mem-many', [('mem', 'm%d' % i, 'uint8_t', 'uint16_t', 0x1000 + 4 * i) for i in range(7)]))
+    # payload limit with raw-memory variables counted: 26 table bytes + 1 memory byte, 6 floats + uint32, 7 float memories
+    out.append(('count26+mem1', [('toc', 'u.b%d' % i, 'uint8_t') for i in range(26)] + [('mem', 'mx', 'uint8_t', 'uint8_t', 0x100)]))
+    out.append(('count25+mem1', [('toc', 'u.b%d' % i, 'uint8_t') for i in range(25)] + [('mem', 'mx', 'uint8_t', 'uint8_t', 0x100)]))
+    out.append(('floats6+mem_u32', [('toc', 'fill%d.x%d' % (i // 30, i), 'float') for i in (6, 14, 22, 30, 38, 46)]
+                + [('mem', 'my', 'uint32_t', 'uint32_t', 0x200)]))
+    out.append(('mem7float', [('mem', 'f%d' % i, 'float', 'float', 0x300 + 4 * i) for i in range(7)]))
+    out.append(('mem6float+u16', [('mem', 'f%d' % i, 'float', 'float', 0x300 + 4 * i) for i in range(6)] + [('mem', 'h', 'uint16_t', 'uint16_t', 0x400)]))
     return out
 
 
@@ -560,10 +567,24 @@ def exec_c05(cfg, devs):
         conf.add_variable('t.a', 'float')
         conf.add_variable('t.b', None)
         logger = SyncLogger(cf, conf)
-        logger.connect()
-        s.sleep(0.2)
-        ex.frozen = False
-        s.frozen = False
+        if cfg.get('early_sample'):
+            # the device streams as soon as the block is started: sample 0 follows the start acknowledgement at once
+            def hook(port, chan, data):
+                if port == 5 and chan == 1 and data[:1] == b'\x03' and not info['sent']:
+                    dev.blocks.setdefault(data[1], {'vars': [], 'period': 0, 'started': False, 'msgs': []})['started'] = True
+                    payload = struct.pack('<fB', 0.5, 0)
+                    info['sent'].append((1, {'t.a': 0.5, 't.b': 0}))
+                    return [(simcf.SimCF.hdr(5, 1), bytes([3, data[1], 0])), dev.log_data_packet(data[1], 1, payload)]
+                return None
+            dev.hooks.append(hook)
+            ex.frozen = False
+            s.frozen = False
+            logger.connect()
+        else:
+            logger.connect()
+            s.sleep(0.2)
+            ex.frozen = False
+            s.frozen = False
 
         def consumer():
             try:
@@ -576,7 +597,7 @@ def exec_c05(cfg, devs):
         s.spawn(None, consumer, name='consumer')
 
         def producer():
-            for k in range(cfg['samples']):
+            for k in range(1 if cfg.get('early_sample') else 0, cfg['samples']):
                 s.sleep(0.05, 'device.period')
                 if ex.env.links[-1].closed:
                     return
@@ -626,7 +647,8 @@ def exec_c05(cfg, devs):
 def sync_configs():
     return [{'name': 'close@0.12', 'samples': 4, 'disconnect_at': 0.12, 'how': 'close'},
             {'name': 'fault@0.12', 'samples': 4, 'disconnect_at': 0.12, 'how': 'fault'},
-            {'name': 'close@0.15tie', 'samples': 3, 'disconnect_at': 0.15, 'how': 'close'}]
+            {'name': 'close@0.15tie', 'samples': 3, 'disconnect_at': 0.15, 'how': 'close'},
+            {'name': 'early-sample:close@0.22', 'samples': 3, 'disconnect_at': 0.22, 'how': 'close', 'early_sample': True}]
 
 
 def configs(quick):
